@@ -289,8 +289,10 @@ NP_REDUCE = {"mean": "vmean", "sum": "vsum", "std": "vstd", "var": "vvar", "min"
 
 def call(node, ctx):
     f = node.func
-    if node.keywords:
-        raise Unsupported("keyword arguments in %s" % ast.unparse(node))
+    for kw in node.keywords:
+        # `axis=axis` with axis statically None (the 1-D reading of an aggregator) is a no-op
+        if not (kw.arg == "axis" and isinstance(kw.value, ast.Name) and ctx.types.get(kw.value.id) == "NONE"):
+            raise Unsupported("keyword arguments in %s" % ast.unparse(node))
     args = node.args
     # abs(x), len(x)
     if isinstance(f, ast.Name):
@@ -301,11 +303,25 @@ def call(node, ctx):
             a, t = expr(args[0], ctx)
             if t in ("V", "VB"):
                 return ("(n_ofnat Ops (length %s))" % a, "N")
+            if t == "MASK":
+                return ("(n_ofnat Ops (length (filter (fun b_ => b_) %s)))" % a, "N")
             raise Unsupported("len of %s" % t)
         if f.id == "float" and len(args) == 1:
             return expr(args[0], ctx)
         raise Unsupported("call %s" % f.id)
     if isinstance(f, ast.Attribute):
+        # verif.util.nprange(v) / verif.util.numvalid(v): translated from util.py as util_nprange / util_numvalid
+        if ast.unparse(f) in ("verif.util.nprange", "verif.util.numvalid") and len(args) == 1:
+            a, t = expr(args[0], ctx)
+            if t != "V":
+                raise Unsupported("%s of %s" % (ast.unparse(f), t))
+            return ("(util_%s %s)" % (f.attr, a), "N")
+        # self._func(v): the statistic a Conditional metric was constructed with
+        if isinstance(f.value, ast.Name) and f.value.id == "self" and f.attr == "_func" and len(args) == 1:
+            a, t = expr(args[0], ctx)
+            if t != "V":
+                raise Unsupported("_func of %s" % t)
+            return ("(func %s)" % a, "N")
         # self.aggregator(v)
         if isinstance(f.value, ast.Name) and f.value.id == "self" and f.attr == "aggregator" and len(args) == 1:
             a, t = expr(args[0], ctx)
@@ -325,6 +341,8 @@ def call(node, ctx):
                     return ("(bsum Ops %s)" % a, "N")
                 if t == "VB" and name == "mean":
                     return ("(vmean Ops (map (of_bool Ops) %s))" % a, "N")
+                if t == "VOB" and name == "mean":
+                    return ("(mamean Ops %s)" % a, "N")
                 raise Unsupported("np.%s of %s" % (name, t))
             if name == "percentile" and len(args) == 2:
                 a, t = expr(args[0], ctx)
@@ -386,7 +404,7 @@ def subscript_call(node, ctx):
         raise Unsupported("%s argument types" % name)
     if spec == "pearson":
         return ("(pearson Ops %s %s)" % (a, b), "N")
-    return ("(%s %s %s)" % (spec, a, b), "N")
+    return ("(%s Ops %s %s)" % (spec, a, b), "N")
 
 
 _orig_expr = expr
@@ -400,7 +418,20 @@ def expr(node, ctx):  # noqa: F811  (wrap to add subscript handling)
         r = subscript_call(node, ctx)
         if r:
             return r
-        raise Unsupported("subscript %s" % ast.unparse(node))
+        src = ast.unparse(node)
+        # v.flatten()[-1] / v.flatten()[0]
+        m = re.match(r"^(\w+)\.flatten\(\)\[(-1|0)\]$", src)
+        if m and ctx.types.get(m.group(1)) == "V":
+            return ("(%s Ops %s)" % ("vlast" if m.group(2) == "-1" else "vfirst", coq_name(m.group(1))), "N")
+        # np.where(<interval>.within(v))[0] : the positions inside the interval (masked = outside)
+        m = re.match(r"^np\.where\((\w+)\.within\((\w+)\)\)\[0\]$", src)
+        if m and ctx.types.get(m.group(1)) == "IV" and ctx.types.get(m.group(2)) == "V":
+            return ("(map (fun x_ => is_some_true (iv_within Ops %s x_)) %s)" % (coq_name(m.group(1)), coq_name(m.group(2))), "MASK")
+        # v[I] with I a position mask
+        if isinstance(node.value, ast.Name) and isinstance(node.slice, ast.Name) \
+                and ctx.types.get(node.value.id) == "V" and ctx.types.get(node.slice.id) == "MASK":
+            return ("(vselect %s %s)" % (coq_name(node.slice.id), coq_name(node.value.id)), "V")
+        raise Unsupported("subscript %s" % src)
     return _orig_expr(node, ctx)
 
 
@@ -542,5 +573,5 @@ def definition(name, params, body_text, rettype):
     return "Definition %s %s : %s :=\n  %s.\n" % (name, ps, rettype, body_text)
 
 
-COQTYPE = {"N": "numT Ops", "B": "bool", "V": "list (numT Ops)", "VB": "list bool", "BT": "bintype",
+COQTYPE = {"MASK": "list bool", "N": "numT Ops", "B": "bool", "V": "list (numT Ops)", "VB": "list bool", "BT": "bintype",
            "OB": "option bool", "VOB": "list (option bool)", "IV": "interval Ops"}
